@@ -10,6 +10,7 @@ use pallas_codec::flat::{
     Flat,
     de::{self, Decode, Decoder},
     en::{self, Encode, Encoder},
+    zigzag::ZigZag,
 };
 use pallas_primitives::{Fragment, conway::PlutusData};
 use std::{collections::VecDeque, fmt::Debug, rc::Rc};
@@ -169,7 +170,7 @@ where
 {
     fn decode(d: &mut Decoder) -> Result<Self, de::Error> {
         let mut state_log: Vec<String> = vec![];
-        let version = (usize::decode(d)?, usize::decode(d)?, usize::decode(d)?);
+        let version = (decode_word(d)?, decode_word(d)?, decode_word(d)?);
         let term_option = Term::decode_debug(d, &mut state_log);
 
         match term_option {
@@ -270,7 +271,7 @@ where
             6 => Ok(Term::Error),
             7 => Ok(Term::Builtin(DefaultFunction::decode(d)?)),
             8 => {
-                let tag = usize::decode(d)?;
+                let tag = decode_word(d)?;
                 let fields = d.decode_list_with(Term::<T>::decode)?;
 
                 Ok(Term::Constr { tag, fields })
@@ -447,7 +448,7 @@ where
             8 => {
                 state_log.push("(constr ".to_string());
 
-                let tag = usize::decode(d)?;
+                let tag = decode_word(d)?;
 
                 let fields = d.decode_list_with_debug(
                     |d, state_log| Term::<T>::decode_debug(d, state_log),
@@ -639,7 +640,7 @@ impl Decode<'_> for Constant {
             [1] => Ok(Constant::ByteString(Vec::<u8>::decode(d)?)),
             [2] => Ok(Constant::String(String::decode(d)?)),
             [3] => Ok(Constant::Unit),
-            [4] => Ok(Constant::Bool(bool::decode(d)?)),
+            [4] => Ok(Constant::Bool(decode_bool(d)?)),
             [7, 5, rest @ ..] => {
                 let mut rest = VecDeque::from(rest.to_vec());
 
@@ -706,7 +707,7 @@ fn decode_constant_value(typ: Rc<Type>, d: &mut Decoder) -> Result<Constant, de:
         Type::ByteString => Ok(Constant::ByteString(Vec::<u8>::decode(d)?)),
         Type::String => Ok(Constant::String(String::decode(d)?)),
         Type::Unit => Ok(Constant::Unit),
-        Type::Bool => Ok(Constant::Bool(bool::decode(d)?)),
+        Type::Bool => Ok(Constant::Bool(decode_bool(d)?)),
         Type::List(sub_type) => {
             let list: Vec<Constant> =
                 d.decode_list_with(|d| decode_constant_value(sub_type.clone(), d))?;
@@ -806,7 +807,7 @@ impl Encode for Unique {
 
 impl Decode<'_> for Unique {
     fn decode(d: &mut Decoder) -> Result<Self, de::Error> {
-        Ok(isize::decode(d)?.into())
+        Ok(decode_word(d)?.zigzag().into())
     }
 }
 
@@ -892,7 +893,7 @@ impl Encode for DeBruijn {
 
 impl Decode<'_> for DeBruijn {
     fn decode(d: &mut Decoder) -> Result<Self, de::Error> {
-        Ok(usize::decode(d)?.into())
+        Ok(decode_word(d)?.into())
     }
 }
 
@@ -965,6 +966,40 @@ fn encode_term_tag(tag: u8, e: &mut Encoder) -> Result<(), en::Error> {
 
 fn decode_term_tag(d: &mut Decoder) -> Result<u8, de::Error> {
     d.bits8(TERM_TAG_WIDTH as usize)
+}
+
+/// Same encoding as `Decoder::word` (7-bit groups, least significant first), but a word
+/// that does not fit in a `usize` is an error: the decoder of the flat crate shifts each
+/// group by `7 * index` unchecked, which overflows (a panic with overflow checks, silent
+/// loss of the high bits without) on malformed or over-long input.
+fn decode_word(d: &mut Decoder) -> Result<usize, de::Error> {
+    let mut leading_bit = 1;
+    let mut final_word: usize = 0;
+    let mut shl: u32 = 0;
+
+    while leading_bit > 0 {
+        let word8 = d.bits8(8)?;
+        let word7 = (word8 & 127) as usize;
+
+        if shl >= usize::BITS || (word7 << shl) >> shl != word7 {
+            return Err(de::Error::Message(format!(
+                "word does not fit in {} bits",
+                usize::BITS
+            )));
+        }
+
+        final_word |= word7 << shl;
+        shl += 7;
+        leading_bit = word8 & 128;
+    }
+
+    Ok(final_word)
+}
+
+/// A single bit, with the end of the buffer reported as an error (`Decoder::bool` indexes
+/// the buffer without checking).
+fn decode_bool(d: &mut Decoder) -> Result<bool, de::Error> {
+    Ok(d.bits8(1)? == 1)
 }
 
 fn safe_encode_bits(num_bits: u32, byte: u8, e: &mut Encoder) -> Result<(), en::Error> {
